@@ -64,6 +64,9 @@ def plan(tier, seed):
                                 cfgs.append(dict(kind=kind, e0=e0, E=E, N=N, pb=pb, cbl=cbl, timer=timer))
                                 if cbl == "RS" and not timer and N == 2 and kind == "positive":
                                     cfgs.append(dict(kind=kind, e0=e0, E=E, N=N, pb=pb, cbl=cbl, timer=timer, extras=True))
+                                if cbl == "SR" and not timer and N == 2 and pb == 1:
+                                    for opt in ("sched", "adam", "k3"):
+                                        cfgs.append(dict(kind=kind, e0=e0, E=E, N=N, pb=pb, cbl=cbl, timer=timer, opt=opt))
                                 if cbl == "RS" and not timer and N == 3 and pb in (1, 2):
                                     # the number of batches is ceil(N / pos_batch_size) whatever the negative batch size
                                     for negb in (1, 2, 3):
@@ -190,6 +193,11 @@ def run_fit(cfg, tape, pre=False):
                 kw["neg_batch_size"] = cfg["negb"]
             if cfg.get("extras"):
                 kw.update(progbar=True, some_ignored_keyword=1)  # a progress bar and an ignored keyword change nothing
+            if cfg.get("opt"):
+                # documented optimiser / scheduler options: the protocol is the same whatever drives the update
+                kw.update(dict(sched=dict(scheduler=torch.optim.lr_scheduler.StepLR, scheduler_args=dict(step_size=1, gamma=0.5)),
+                               adam=dict(optimizer=torch.optim.Adam, optimizer_args=dict(betas=(0.8, 0.9)), lr=0.01),
+                               k3=dict(k=3, lr=0.02))[cfg["opt"]])
             call(st.fit, data, epochs=E, starting_epoch=e0, pos_batch_size=pb, time=cfg.get("timer", False), callbacks=cbs, **kw)
     except LibRaised as e:
         return [(f"protocol:fit-raised:{e.kind}", dict(tb=e.tb))], None, 0
@@ -346,7 +354,7 @@ def replay(case):
         cfg = dict(kind="positive", e0=e0, E=E, N=nb, pb=1, cbl="SR", timer=False)
         pre = len(case.get("trace", [1])) == 0
     else:
-        cfg = {k: case[k] for k in ("kind", "e0", "E", "N", "pb", "cbl", "timer", "negb", "extras") if k in case}
+        cfg = {k: case[k] for k in ("kind", "e0", "E", "N", "pb", "cbl", "timer", "negb", "extras", "opt") if k in case}
         pre = case.get("pre", False)
     viols, tr, nev = run_fit(cfg, T.Tape(case["tape"], lenient=True), pre)
     acc.ev(1)
